@@ -3,6 +3,7 @@ package frugal
 import (
 	"bytes"
 	"encoding/binary"
+	"io"
 
 	"github.com/apache/thrift/lib/go/thrift"
 )
@@ -12,6 +13,7 @@ import (
 func init() {
 	verifHarnesses["VerifC04_RoundTrip"] = VerifC04_RoundTrip
 	verifHarnesses["VerifC04_AddHeaders"] = VerifC04_AddHeaders
+	verifHarnesses["VerifC04_WireToContext"] = VerifC04_WireToContext
 }
 
 // verifHeaderMap builds a map with up to n entries whose names and values are
@@ -121,6 +123,15 @@ func VerifC04_RoundTrip() {
 	verifAssert(verifMapEq(got, m) && verifMapEq(m, got), "stream reader returns the identical map")
 	verifAssert(bytes.Equal(rd.Bytes(), payload), "stream reader leaves exactly the payload unread")
 
+	// stream reader over a transport that delivers at most k bytes per Read (a socket,
+	// frugal's own framed transport at a buffer boundary): same map, same rest
+	chunk := 1 + verifChoice(3)
+	srd := &verifShortReader{data: append([]byte{}, stream...), chunk: chunk}
+	got3, err := readHeader(srd)
+	verifAssert(err == nil, "stream reader accepts the encoding from a short-reading transport")
+	verifAssert(verifMapEq(got3, m) && verifMapEq(m, got3), "stream reader returns the identical map from a short-reading transport")
+	verifAssert(bytes.Equal(srd.data, payload), "short-reading transport: exactly the payload is left unread")
+
 	// frame reader
 	got2, err := getHeadersFromFrame(stream)
 	verifAssert(err == nil, "frame reader accepts the encoding")
@@ -131,6 +142,84 @@ func VerifC04_RoundTrip() {
 	if len(m) < n {
 		verifReach("collapsed-names")
 	}
+	verifReach("end")
+}
+
+// verifShortReader is a reader that hands out at most chunk bytes per Read call.
+type verifShortReader struct {
+	data  []byte
+	chunk int
+}
+
+func (r *verifShortReader) Read(p []byte) (int, error) {
+	if len(r.data) == 0 {
+		return 0, io.EOF
+	}
+	n := r.chunk
+	if n > len(p) {
+		n = len(p)
+	}
+	if n > len(r.data) {
+		n = len(r.data)
+	}
+	copy(p, r.data[:n])
+	r.data = r.data[n:]
+	return n, nil
+}
+
+// VerifC04_WireToContext: a request header block written by another implementation
+// (any header set that contains an op id; timeout and correlation id optional)
+// becomes a context whose request headers are exactly the wire map (the op id is
+// replaced by a local one and echoed in the response headers), and a response header
+// block becomes exactly the response headers.
+func VerifC04_WireToContext() {
+	_, user := verifHeaderMap(verifParam(), verifBound())
+	wireMap := map[string]string{}
+	for k, v := range user {
+		wireMap[k] = v
+	}
+	wireMap[opIDHeader] = "77"
+	if verifNondetBool() {
+		wireMap[cidHeader] = "cid-x"
+		verifReach("with-cid")
+	}
+	if verifNondetBool() {
+		wireMap[timeoutHeader] = "250"
+		verifReach("with-timeout")
+	}
+	wire := writeMarshaler.marshalHeaders(wireMap)
+	pf := NewFProtocolFactory(thrift.NewTBinaryProtocolFactoryDefault())
+	fctx, err := pf.GetProtocol(&thrift.TMemoryBuffer{Buffer: bytes.NewBuffer(wire)}).ReadRequestHeader()
+	verifAssert(err == nil, "a header block with an op id is accepted")
+	got := fctx.RequestHeaders()
+	verifAssert(len(got) == len(wireMap), "the context has exactly the headers of the wire")
+	for k, v := range wireMap {
+		g, ok := got[k]
+		verifAssert(ok, "every wire header is a request header")
+		if k != opIDHeader {
+			verifAssert(g == v, "with the value of the wire")
+		}
+	}
+	resp := fctx.ResponseHeaders()
+	verifAssert(resp[opIDHeader] == "77", "the request's op id is echoed in the response headers")
+	_, hasCid := wireMap[cidHeader]
+	_, respCid := resp[cidHeader]
+	verifAssert(hasCid == respCid && (!hasCid || resp[cidHeader] == "cid-x"), "the correlation id is echoed iff the wire had one")
+
+	// response direction: the block is applied to a fresh context verbatim
+	target := NewFContext("mine").(*FContextImpl)
+	target.requestHeaders[opIDHeader] = "77"
+	before := target.RequestHeaders()
+	err = pf.GetProtocol(&thrift.TMemoryBuffer{Buffer: bytes.NewBuffer(wire)}).ReadResponseHeader(target)
+	verifAssert(err == nil, "response header block accepted")
+	rh := target.ResponseHeaders()
+	for k, v := range wireMap {
+		if k == opIDHeader {
+			continue
+		}
+		verifAssert(rh[k] == v, "every wire header is a response header with its value")
+	}
+	verifAssert(verifMapEq(before, target.RequestHeaders()), "reading a response leaves the request headers untouched")
 	verifReach("end")
 }
 
